@@ -804,6 +804,17 @@ impl FixtureDatabase {
     fn find_yield_in_stmt(&self, stmt: &Stmt, line_index: &[usize]) -> Option<usize> {
         match stmt {
             Stmt::Expr(expr_stmt) => self.find_yield_in_expr(&expr_stmt.value, line_index),
+            // `x = yield value` and friends: the yield is the value of the statement
+            Stmt::Assign(assign) => self.find_yield_in_expr(&assign.value, line_index),
+            Stmt::AnnAssign(ann_assign) => ann_assign
+                .value
+                .as_ref()
+                .and_then(|v| self.find_yield_in_expr(v, line_index)),
+            Stmt::AugAssign(aug_assign) => self.find_yield_in_expr(&aug_assign.value, line_index),
+            Stmt::Return(ret) => ret
+                .value
+                .as_ref()
+                .and_then(|v| self.find_yield_in_expr(v, line_index)),
             Stmt::If(if_stmt) => {
                 // Check body
                 for s in &if_stmt.body {
@@ -917,6 +928,12 @@ impl FixtureDatabase {
                     self.get_line_from_offset(yield_from.range.start().to_usize(), line_index);
                 Some(line)
             }
+            // a yield wrapped in `await (...)` or passed as a call argument
+            Expr::Await(await_expr) => self.find_yield_in_expr(&await_expr.value, line_index),
+            Expr::Call(call) => call
+                .args
+                .iter()
+                .find_map(|arg| self.find_yield_in_expr(arg, line_index)),
             _ => None,
         }
     }
